@@ -28,9 +28,14 @@ def evaluate(case: Dict[str, Any]) -> Dict[str, Any]:
     prev = None
     prev_scaled = False
     ncomp = 0
+    shared: Dict[str, Any] = {}
     for li, leg in enumerate(legs):
         kw, desc, p = shell.build(case)
         kw.update(leg)
+        # the same callable criteria objects are handed to every leg of a chain (what a user restarting in one process does)
+        for name in ("ftarget", "gtol"):
+            if callable(kw.get(name)):
+                kw[name] = shared.setdefault(name, kw[name])
         if prev is not None:
             kw["x0"] = np.array(prev.x, copy=True)
             kw["checkpoint"] = prev
